@@ -11,7 +11,7 @@ BITS = [1 << i for i in range(12)]
 COMMON = [0o600, 0o640, 0o644, 0o400, 0o660, 0o666]
 
 
-def make_req(cert_mode=None, pk_mode=None, umask=0o022, owners=None, phase2=None):
+def make_req(cert_mode=None, pk_mode=None, umask=0o022, owners=None, phase2=None, backup_hook=False):
     g = {}
     if cert_mode is not None:
         g["cert_file_mode"] = cert_mode
@@ -19,12 +19,20 @@ def make_req(cert_mode=None, pk_mode=None, umask=0o022, owners=None, phase2=None
         g["pk_file_mode"] = pk_mode
     for k, v in (owners or {}).items():
         g[k] = v
-    doc = cfg.base_doc(global_extra=g)
+    def with_backup(d):
+        # a file-pre-edit hook that moves the old file away (a backup hook): the rewritten file is then created afresh
+        if backup_hook:
+            d["hook"].append({"name": "backup", "type": ["file-pre-edit"], "cmd": "mv", "args": ["{{ file_path }}", "{{ file_path }}.bak"]})
+            d["certificate"][0]["hooks"].append("backup")
+            d["account"][0]["hooks"].append("backup")
+        return d
+
+    doc = with_backup(cfg.base_doc(global_extra=g))
     phases = [{"attempts": 1}]
     if phase2 is not None:
         g2 = dict(g)
         g2.update(phase2)
-        doc2 = cfg.base_doc(global_extra=g2)
+        doc2 = with_backup(cfg.base_doc(global_extra=g2))
         phases.append({"attempts": 1, "files": {"main.toml": cfg.to_toml(doc2)}})
     req = cfg.scenario(doc, cas=[{"cert_lifetime_s": 10 * 86400}], phases=phases)
     req["umask"] = umask
@@ -162,6 +170,10 @@ def run(ctx):
     for um in (0o077, 0o027):
         flows_.append(make_req(cert_mode=0o644, pk_mode=0o640, umask=um, phase2={}))
         flows_.append(make_req(cert_mode=0o644, pk_mode=0o600, umask=um, phase2={"cert_file_mode": 0o664, "pk_file_mode": 0o660}))
+    # rewrites during which the old file disappears (moved away by a file-pre-edit backup hook)
+    for um in (0o022, 0o077):
+        flows_.append(make_req(cert_mode=0o640, pk_mode=0o600, umask=um, phase2={}, backup_hook=True))
+    flows_.append(make_req(phase2={}, backup_hook=True))
     if root:
         flows_.append(make_req(owners={"pk_file_user": "nobody"}, phase2={"pk_file_user": "daemon", "pk_file_group": "nogroup"}))
     # no [global] table at all: the built-in defaults must apply (load only: the default directories are system paths)
